@@ -257,7 +257,7 @@ def run(case):
         if case["model"] == "exact_counting" and counter["n"] != 0:
             return Outcome(failure("hologram_computed_for_forbidden_parameters", "%d forward calculations although lnprior = -inf (%s)" % (counter["n"], cause), cause=cause), True, labels)
         return Outcome(None, True, labels)
-    if abs(got_prior - ref_prior) > 1e-10 * max(1.0, abs(ref_prior)) * TOLX:
+    if not (abs(got_prior - ref_prior) <= 1e-10 * max(1.0, abs(ref_prior)) * TOLX):
         return Outcome(failure("lnprior_value", "lnprior %r, sum of reference log-densities %r" % (got_prior, ref_prior)), True, labels)
     # ---- forward == public calc_holo for the substituted scatterer/theory/optics
     scat_v = model.scatterer_from_parameters(vec)
@@ -301,7 +301,7 @@ def run(case):
         z = resid.values / src
         logsig = resid.size * math.log(src)
     ref_like = -0.5 * resid.size * math.log(2 * math.pi) - logsig - 0.5 * float((z ** 2).sum())
-    if abs(got_like - ref_like) > 1e-10 * max(1.0, abs(ref_like)) * TOLX:
+    if not (abs(got_like - ref_like) <= 1e-10 * max(1.0, abs(ref_like)) * TOLX):
         return Outcome(failure("lnlike_value", "lnlike %r, Gaussian log-density of the residuals %r (noise %r from %s)" % (got_like, ref_like, src, nf), noise=nf), True, labels)
     got_post = model.lnposterior(vec, work)
     if got_post != got_prior + got_like:
@@ -379,7 +379,7 @@ def _run_many(case):
         got = model.lnlike(vec, data)
         z = (pub - data).values / val["noise_sd"]
         ref = -0.5 * z.size * math.log(2 * math.pi) - z.size * math.log(val["noise_sd"]) - 0.5 * float((z ** 2).sum())
-        if abs(got - ref) > 1e-10 * max(1.0, abs(ref)) * TOLX:
+        if not (abs(got - ref) <= 1e-10 * max(1.0, abs(ref)) * TOLX):
             return Outcome(failure("lnlike_value", "17-parameter model, evaluation %d: lnlike %r, Gaussian log-density %r" % (i + 1, got, ref), noise="prior_scalar"), True, labels)
     return Outcome(None, True, labels)
 
@@ -474,7 +474,7 @@ def run_hist(case):
             z = resid.values / s_
             logsig = resid.size * math.log(s_)
         ref = -0.5 * resid.size * math.log(2 * math.pi) - logsig - 0.5 * float((z ** 2).sum())
-        if abs(got - ref) > 1e-10 * max(1.0, abs(ref)) * TOLX:
+        if not (abs(got - ref) <= 1e-10 * max(1.0, abs(ref)) * TOLX):
             return Outcome(failure("lnlike_value", "evaluation %d: lnlike %r, Gaussian log-density at this vector's noise levels %r" % (i + 1, got, ref), noise=case["noise"]), True, labels)
         seen.append(tuple(vec))
     return Outcome(None, len(set(seen)) >= 2 and per_channel, labels)
